@@ -270,19 +270,21 @@ func (p *CodeBuilder) startFuncBody(fn *Func, src []ast.Node, old *funcBodyCtx) 
 	p.startBlockStmt(fn, src, "func "+fn.Name(), &old.codeBlockCtx)
 	scope := p.current.scope
 	sig := fn.Type().(*types.Signature)
-	insertParams(scope, sig.Params())
-	insertParams(scope, sig.Results())
+	insertParams(p.pkg, scope, sig.Params())
+	insertParams(p.pkg, scope, sig.Results())
 	if recv := sig.Recv(); recv != nil {
 		scope.Insert(recv)
+		p.pkg.useName(recv.Name())
 	}
 	return p
 }
 
-func insertParams(scope *types.Scope, params *types.Tuple) {
+func insertParams(pkg *Package, scope *types.Scope, params *types.Tuple) {
 	for i, n := 0, params.Len(); i < n; i++ {
 		v := params.At(i)
 		if name := v.Name(); name != "" && name != "_" {
 			scope.Insert(v)
+			pkg.useName(name) // an import must not take the name of a parameter or result
 		}
 	}
 }
